@@ -217,8 +217,8 @@ pub fn run(p: &Params, rep: &mut Report) {
     }
     let mut rng = p.rng(4);
     let n = p.size(8000, 80_000);
-    for _ in 0..n {
-        let spec = gen_wellformed(&mut rng, p.thorough);
+    for it in 0..n {
+        let spec = if it % 40 == 39 { gen_superfluous_default(&mut rng) } else { gen_wellformed(&mut rng, p.thorough) };
         let seed = rng.next();
         let text = spec.to_text();
         rep.eval(Some(&text));
